@@ -215,7 +215,8 @@ pub fn run(toks: Vec<Tok>) -> Vec<Tok> {
 
 /// UDP through the SOCKS5 forwarder end to end: `CONNECT _udp2` over HTTP/1.1-TLS to the real endpoint, which associates with a
 /// scripted SOCKS5 server (control connection + relay socket on loopback).
-/// in : [extended_auth (0|1), datagrams, payload length, reply code of the server to UDP ASSOCIATE]
+/// in : [extended_auth (0|1), datagrams, payload length, reply code of the server to UDP ASSOCIATE, scenario (absent or 0: this one |
+///       1: one source, two destinations, the first expires | 2, 3, 4: a fault confined to one association, see below)]
 /// out: [996] | [status, replies with the right payload, replies labelled source = the destination and destination = the client's source,
 ///       control connections the server saw, datagrams the relay received, their headers are all RSV RSV FRAG ATYP DST.ADDR DST.PORT (0|1),
 ///       their payloads intact] then the bytes of the first control connection
@@ -227,8 +228,21 @@ pub fn udp(toks: Vec<Tok>) -> Vec<Tok> {
         // f[4] = 1: one client source address talks to two destinations; the first one falls silent for longer than the UDP
         // timeout (300 ms) while the second keeps exchanging datagrams; out: [status, replies on the second flow, of]
         let shared_source = f.get(4).copied().unwrap_or(0) == 1;
+        // f[4] = 2 | 3 | 4: a fault confined to one association (one client source address) while another source goes on:
+        //   2: the relay answers one datagram of source 4000 with a packet that is too short (an error on the reading side);
+        //   3: the relay port the server names for the association of source 4000 is closed (sends fail with ECONNREFUSED);
+        //   4: the server takes 150 ms to answer UDP ASSOCIATE and the UDP timeout is 400 ms (the expiry timer runs every 100 ms,
+        //      i.e. while the association of a new flow is being set up);
+        // out: [status, client connection closed by the endpoint (0|1)] then per datagram sent [source port, tag, its reply came back labelled for its flow (0|1)]
+        let fault = f.get(4).copied().unwrap_or(0);
+        let (dead_first, slow_assoc) = (fault == 3, fault == 4);
         let Ok(relay) = tokio::net::UdpSocket::bind("127.0.0.1:0").await else { return vec![vec![996]] };
         let relay_port = relay.local_addr().unwrap().port();
+        // a loopback port nobody listens on: bind, note the port, close
+        let dead_port = match std::net::UdpSocket::bind("127.0.0.1:0") {
+            Ok(u) => u.local_addr().unwrap().port(),
+            Err(_) => return vec![vec![996]],
+        };
         let seen: Arc<Mutex<Vec<(Vec<u8>, Vec<u8>)>>> = Arc::new(Mutex::new(vec![]));
         {
             let seen = seen.clone();
@@ -249,6 +263,10 @@ pub fn udp(toks: Vec<Tok>) -> Vec<Tok> {
                         // the peer answers with the same payload reversed; the relay wraps it as coming from that peer
                         let mut back = d[..hl].to_vec();
                         back.extend(d[hl..].iter().rev());
+                        if fault == 2 && d.get(hl) == Some(&0xEE) {
+                            // a relay that answers this datagram with something that is not a SOCKS5 UDP packet (too short)
+                            back = vec![0, 0, 0];
+                        }
                         let _ = relay.send_to(&back, from).await;
                     }
                 }
@@ -317,7 +335,12 @@ pub fn udp(toks: Vec<Tok>) -> Vec<Tok> {
                                     } =>
                                 {
                                     controls.lock().unwrap()[idx].extend(got.drain(..));
-                                    let _ = s.write_all(&[5, code, 0, 1, 127, 0, 0, 1, (relay_port >> 8) as u8, relay_port as u8]).await;
+                                    // connection 0 is the authentication probe of the CONNECT; associations follow
+                                    if slow_assoc && idx >= 1 {
+                                        tokio::time::sleep(Duration::from_millis(150)).await;
+                                    }
+                                    let rp = if dead_first && idx == 1 { dead_port } else { relay_port };
+                                    let _ = s.write_all(&[5, code, 0, 1, 127, 0, 0, 1, (rp >> 8) as u8, rp as u8]).await;
                                     stage = 3;
                                     true
                                 }
@@ -347,7 +370,7 @@ pub fn udp(toks: Vec<Tok>) -> Vec<Tok> {
                 .forwarder_settings(ForwardProtocolSettings::Socks5(
                     Socks5ForwarderSettings::builder().server_address(socks_addr).unwrap().extended_auth(ext).build().unwrap(),
                 ))
-                .udp_connections_timeout(Duration::from_millis(if shared_source { 300 } else { 120_000 }))
+                .udp_connections_timeout(Duration::from_millis(if shared_source { 300 } else if slow_assoc { 400 } else { 120_000 }))
                 .build()
                 .unwrap()
         };
@@ -417,6 +440,93 @@ pub fn udp(toks: Vec<Tok>) -> Vec<Tok> {
             }
             drop(s);
             return vec![vec![status, replies, sent]];
+        }
+        if fault >= 2 {
+            if status != 200 {
+                return vec![vec![status, 0]];
+            }
+            let p = acc.windows(4).position(|w| w == b"\r\n\r\n").unwrap() + 4;
+            let mut inbox = acc[p..].to_vec();
+            let mk = |sport: u16, tag: u8| -> Vec<u8> {
+                let mut body = vec![0u8; 12];
+                body.extend_from_slice(&[10, 8, 0, 2]);
+                body.extend_from_slice(&sport.to_be_bytes());
+                body.extend_from_slice(&[0u8; 12]);
+                body.extend_from_slice(&[203, 0, 113, 7]);
+                body.extend_from_slice(&5353u16.to_be_bytes());
+                body.push(0);
+                body.extend_from_slice(&[tag, 1, 2, 3]);
+                let mut pkt = (body.len() as u32).to_be_bytes().to_vec();
+                pkt.extend_from_slice(&body);
+                pkt
+            };
+            // the replies read so far: (client source port the reply is addressed to, tag), only those labelled source = the destination
+            // and destination = the client's source address, payload = the datagram's reversed
+            let replies = |inbox: &[u8]| -> Vec<(u16, u8)> {
+                let mut v = vec![];
+                let mut i = 0;
+                while inbox.len() >= i + 4 {
+                    let ln = u32::from_be_bytes([inbox[i], inbox[i + 1], inbox[i + 2], inbox[i + 3]]) as usize;
+                    if inbox.len() < i + 4 + ln {
+                        break;
+                    }
+                    let d = &inbox[i + 4..i + 4 + ln];
+                    i += 4 + ln;
+                    if ln == 40
+                        && d[..12] == [0u8; 12]
+                        && d[12..16] == [203, 0, 113, 7]
+                        && d[16..18] == 5353u16.to_be_bytes()
+                        && d[18..30] == [0u8; 12]
+                        && d[30..34] == [10, 8, 0, 2]
+                        && d[36..39] == [3, 2, 1]
+                    {
+                        v.push((u16::from_be_bytes([d[34], d[35]]), d[39]));
+                    }
+                }
+                v
+            };
+            // (source port, tag, how long to wait for this datagram's reply before going on, ms)
+            let script: Vec<(u16, u8, u64)> = if slow_assoc {
+                // the second datagram of a pair follows well within the UDP timeout of the first
+                vec![(4001, 1, 200), (4001, 2, 200), (4001, 3, 200), (4002, 4, 200), (4002, 5, 200)]
+            } else if dead_first {
+                vec![(4000, 1, 300), (4001, 2, 1500), (4000, 3, 300), (4001, 4, 1500), (4000, 5, 300), (4001, 6, 1500), (4001, 7, 1500)]
+            } else {
+                vec![(4000, 1, 1500), (4001, 2, 1500), (4000, 0xEE, 300), (4001, 3, 1500), (4000, 4, 1500), (4001, 5, 1500), (4001, 6, 1500)]
+            };
+            let mut closed = 0u128;
+            for (sport, tag, wait) in script.iter().copied() {
+                if closed == 1 || s.write_all(&mk(sport, tag)).await.is_err() {
+                    closed = 1;
+                    break;
+                }
+                let deadline = tokio::time::Instant::now() + Duration::from_millis(wait);
+                while !replies(&inbox).contains(&(sport, tag)) {
+                    match tokio::time::timeout_at(deadline, s.read(&mut buf)).await {
+                        Ok(Ok(k)) if k > 0 => inbox.extend_from_slice(&buf[..k]),
+                        Ok(_) => {
+                            closed = 1;
+                            break;
+                        }
+                        Err(_) => break,
+                    }
+                }
+            }
+            // stragglers (a reply that took longer than its datagram's wait)
+            let deadline = tokio::time::Instant::now() + Duration::from_millis(2000);
+            while closed == 0 && !script.iter().all(|(p, t, _)| (dead_first && *p == 4000) || *t == 0xEE || replies(&inbox).contains(&(*p, *t))) {
+                match tokio::time::timeout_at(deadline, s.read(&mut buf)).await {
+                    Ok(Ok(k)) if k > 0 => inbox.extend_from_slice(&buf[..k]),
+                    Ok(_) => closed = 1,
+                    Err(_) => break,
+                }
+            }
+            let got = replies(&inbox);
+            let mut out = vec![vec![status, closed]];
+            for (sport, tag, _) in script {
+                out.push(vec![sport as u128, tag as u128, got.contains(&(sport, tag)) as u128]);
+            }
+            return out;
         }
         if status == 200 {
             let p = acc.windows(4).position(|w| w == b"\r\n\r\n").unwrap() + 4;
